@@ -72,7 +72,7 @@ class Report:
             self.violation(rule, "control-dead:%s" % what, "", "positive control did not fire: detector is blind")
 
     # ---- finishing ------------------------------------------------------------------
-    def finish(self, level_text=""):
+    def finish(self, level_text="", write=True):
         known_path = os.path.join(VERIF, "known_findings.json")
         known = []
         if os.path.exists(known_path):
@@ -92,16 +92,18 @@ class Report:
         for it, k in known_hit:
             print("KNOWN-FINDING: property=%s %s %s — %s" % (self.prop, it["rule"], it["key"], k.get("what", "")))
         replay_dir = os.path.join(VERIF, "evidence", "replay")
-        os.makedirs(replay_dir, exist_ok=True)
-        # remove old replay files of this property
-        for n in os.listdir(replay_dir):
-            if n.startswith(self.prop + "-"):
-                os.remove(os.path.join(replay_dir, n))
+        if write:
+            os.makedirs(replay_dir, exist_ok=True)
+            # remove old replay files of this property
+            for n in os.listdir(replay_dir):
+                if n.startswith(self.prop + "-"):
+                    os.remove(os.path.join(replay_dir, n))
         for i, it in enumerate(violations):
             path = os.path.join(replay_dir, "%s-%d.json" % (self.prop, i))
-            with open(path, "w") as f:
-                json.dump({"property": self.prop, "rule": it["rule"], "rule_text": self.rules.get(it["rule"], ""),
-                           "key": it["key"], "where": it["where"], "detail": it["detail"]}, f, indent=1)
+            if write:
+                with open(path, "w") as f:
+                    json.dump({"property": self.prop, "rule": it["rule"], "rule_text": self.rules.get(it["rule"], ""),
+                               "key": it["key"], "where": it["where"], "detail": it["detail"]}, f, indent=1)
             print("VIOLATION property=%s replay=%s" % (self.prop, path))
             print("  rule %s: %s" % (it["rule"], self.rules.get(it["rule"], "")))
             print("  at %s  [%s]" % (it["where"], it["key"]))
@@ -150,9 +152,10 @@ class Report:
             "violations": len(violations),
         }
         ev["coverage"].update(self.extra)
-        os.makedirs(os.path.join(VERIF, "evidence"), exist_ok=True)
-        with open(os.path.join(VERIF, "evidence", "%s.json" % self.prop), "w") as f:
-            json.dump(ev, f, indent=1)
+        if write:
+            os.makedirs(os.path.join(VERIF, "evidence"), exist_ok=True)
+            with open(os.path.join(VERIF, "evidence", "%s.json" % self.prop), "w") as f:
+                json.dump(ev, f, indent=1)
         print("%s: %d rule instances, %d ok, %d known, %d unresolved(non-mandatory), %d violations  [%0.1fs]" % (
             self.prop, len(self.items), n_ok, len(known_hit), n_unres, len(violations), time.time() - self.t0))
         return 1 if violations else 0
